@@ -91,26 +91,42 @@ def run(ck, facts, tier):
              sample="no call site of a local generic fn mentions dual::enums::Number among its type arguments")
 
     r1 = ck.rule("R20.1", "every panic edge (MIR Assert, unwrap/expect/panic!/assert!, indexing and other aborting externals) in a function "
-                          "reachable from an entry point is in the reviewed table (rules/c20_sites.json) and is control dependent on at least "
-                          "as many dominating branches as when reviewed", floor=150)
+                          "reachable from an entry point is covered by the reviewed table (rules/c20_sites.json): per function (with its closures and the private "
+                          "helpers extracted from it) and kind, no more sites than reviewed, each control dependent on at least as many dominating branches", floor=150)
     nsites = 0
+    # Sites are judged per (root function, kind) as a multiset of control depths: the function's own sites, those of the closures nested in it (closure
+    # numbering shifts under harmless edits) and those of private helpers extracted from it must fit the reviewed budget — no more sites than reviewed, and an
+    # injective matching in which every site sits under at least as many dominating guards as its reviewed counterpart.
+    absorbed, absorbed_fns = absorb_helpers(P, R, fams, {f for f, _ in tab})
+    ck.extra["absorbed_helpers"] = sorted(absorbed_fns)
     for fam, members in sorted(fams.items()):
+        roots = {}
         for name, per in members:
-            rec = facts.mir[name]
+            if name in absorbed_fns:
+                continue                      # judged in the context of its reviewed callers
+            rt = roots.setdefault(cc.root_of(name), {})
+            for kind, sites in per.items():
+                rt.setdefault(kind, []).extend((s["ctrl"], name, s["ln"]) for s in sites)
+            for kind, ex in absorbed.get(name, {}).items():
+                rt.setdefault(kind, []).extend(ex)
+        for root, per in sorted(roots.items()):
             for kind, sites in sorted(per.items()):
                 ent = tab.get((fam, kind))
-                for n, s in enumerate(sites):
-                    nsites += 1
-                    where = "%s:%d" % (rec["file"], s["ln"])
+                sites = sorted(sites, key=lambda t: (t[0], t[2]))
+                budget = sorted(ent["ctrl"]) if ent else []
+                nsites += len(sites)
+                for n, (d, fn_, ln) in enumerate(sites):
+                    where = "%s:%d" % (facts.mir[fn_]["file"], ln)
                     key = "%s:%s#%d" % (fam, kind, n)
-                    if ent is None or n >= ent["count"]:
-                        ck.fail(r1, key, "unreviewed panic edge `%s` reachable from a fallible/total entry point (in %s)" % (kind, name), where,
-                                "path: " + " <- ".join(call_path(P, name)))
-                    elif s["ctrl"] < ent["ctrl"][n]:
-                        ck.fail(r1, key + ":guard", "panic edge `%s` lost a dominating guard (control depth %d, reviewed %d): %s"
-                                % (kind, s["ctrl"], ent["ctrl"][n], ent["reason"]), where)
+                    via = "" if cc.root_of(fn_) == root else " (in helper %s)" % fn_
+                    if n >= len(budget):
+                        ck.fail(r1, key, "unreviewed panic edge `%s` reachable from a fallible/total entry point (in %s%s): %d site(s), %d reviewed"
+                                % (kind, root, via, len(sites), len(budget)), where, "path: " + " <- ".join(call_path(P, root)))
+                    elif d < budget[n]:
+                        ck.fail(r1, key + ":guard", "panic edge `%s`%s lost a dominating guard (control depths now %s, reviewed %s): %s"
+                                % (kind, via, [t[0] for t in sites], budget, ent["reason"]), where)
                     else:
-                        ck.ok(r1, key, sample="class %s: %s (ctrl depth %d)" % (ent["class"], ent["reason"], s["ctrl"]))
+                        ck.ok(r1, key, sample="class %s: %s (ctrl depth %d)" % (ent["class"], ent["reason"], d))
     ck.extra["reachable_functions"] = len(R)
     ck.extra["panic_sites"] = nsites
     ck.extra["site_table_rows"] = len(table)
@@ -171,6 +187,53 @@ def run(ck, facts, tier):
         "an aborting external outside that list would be missed",
     ]
     ck.trusted += ["rules/c20_sites.json (reviewed site table)", "lib/cfg.py PANICKING_EXTERNAL denylist"]
+
+
+def absorb_helpers(P, R, fams, tabfams):
+    """Private helpers extracted from reviewed functions: a reachable function with panic sites whose family is not in the reviewed table, all of whose
+    callers (transitively, through other such helpers, at most 3 levels) are members of reviewed families, is judged in its callers' context.
+    Returns ({reviewed caller fn: {kind: [(control depth incl. the call site's, helper fn, line)]}}, {absorbed helper fns})."""
+    fam_of = {name: fam for fam, members in fams.items() for name, _ in members}
+    sites_of = {name: per for fam, members in fams.items() for name, per in members}
+    callers = {}
+    for f in R:
+        c = P.cfgs[f]
+        for i, t in c.calls():
+            tgt = t.get("resolved") or t.get("callee")
+            if tgt in P.cfgs and tgt != f:
+                callers.setdefault(tgt, []).append((f, i))
+        for ch in P.children.get(f, ()):
+            callers.setdefault(ch, []).append((f, None))
+
+    def contexts(u, depth, seen):
+        """[(reviewed fn, added control depth)] or None if some caller chain does not end in a reviewed family"""
+        if depth > 3 or u in seen or u in cc.ENTRIES:
+            return None
+        out = []
+        for f, blk in callers.get(u, []):
+            d = cfgmod.ctrl_depth(P.cfgs[f], blk) if blk is not None else 0
+            if fam_of.get(f) in tabfams:
+                out.append((f, d))
+            else:
+                up = contexts(f, depth + 1, seen | {u})
+                if up is None:
+                    return None
+                out += [(g, d + d2) for g, d2 in up]
+        return out or None
+
+    absorbed, fns = {}, set()
+    for u in sorted(R):
+        if fam_of.get(u) in tabfams or not sites_of.get(u):
+            continue
+        ctx = contexts(u, 0, frozenset())
+        if ctx is None:
+            continue
+        fns.add(u)
+        for g, d in ctx:
+            for kind, sites in sites_of[u].items():
+                for s_ in sites:
+                    absorbed.setdefault(g, {}).setdefault(kind, []).append((d + s_["ctrl"], u, s_["ln"]))
+    return absorbed, fns
 
 
 def call_path(P, target, limit=6):
